@@ -37,11 +37,32 @@ def run_main(file, cmd, ev, mod, flags):
         def __init__(self, text, name):
             self.text, self.name = text, name
 
-        def read_text(self):
+        def read_text(self, *a, **kw):
             return self.text
 
         def __str__(self):
             return self.name
+
+        # the rest of pathlib's contract for a *relative* path that was given: these return another path object that names the same file differently
+        def resolve(self, strict=False):
+            return Path(self.text, "/cwd/" + self.name)
+
+        absolute = resolve
+
+        def expanduser(self):
+            return Path(self.text, self.name)
+
+        def __fspath__(self):
+            return self.name
+
+        def exists(self):
+            return True
+
+        is_file = exists
+
+        def open(self, *a, **kw):
+            import io
+            return io.StringIO(self.text)
 
     args = types.SimpleNamespace(file=(None if file is None else Path(file, "prog.py")), c=cmd, e=ev, m=mod, dis=flags["dis"], source=flags["source"],
                                  dis_after=flags["dis_after"], no_normalize=flags["no_normalize"], json=flags["json"])
@@ -229,6 +250,9 @@ def h_parser(ctx, cfg):
             ns, err = parse([opt, t, "--json", "--no-normalize"])
             ctx.prove("flags_are_independent_of_the_source_text[%s]" % opt, z3.BoolVal(ns is not None and getattr(ns, attr) == t and ns.json and ns.no_normalize and not ns.dis and not ns.dis_after and not ns.source),
                       detail="%r -> %r %r" % (t, ns, err))
+    for glued, attr, val in (("-cx=1", "c", "x=1"), ("-mjson.tool", "m", "json.tool"), ("-e'x'", "e", "'x'"), ("-cpass", "c", "pass")):
+        ns, err = parse([glued])
+        ctx.prove("a_short_option_with_its_value_glued_on_delivers_the_value", z3.BoolVal(ns is not None and getattr(ns, attr) == val), detail="%r -> %r %r" % (glued, ns, err))
     for name in ("prog.py", "dir/prog.py", "@prog.py", "a b.py"):
         ns, err = parse([name])
         ctx.prove("positional_file_is_a_path_of_that_name", z3.BoolVal(ns is not None and ns.file is not None and str(ns.file) == name and ns.c is None and ns.e is None and ns.m is None), detail="%r -> %r %r" % (name, ns, err))
